@@ -85,7 +85,7 @@ func ruleC16Space(c *ctx.Ctx, r *core.Reporter) {
 		return
 	}
 	for b := int64(0); b < 256; b++ {
-		must := (b >= 'a' && b <= 'z') || (b >= 'A' && b <= 'Z') || (b >= '0' && b <= '9') || b == '_' || b == '$' || b == 8
+		must := (b >= 'a' && b <= 'z') || (b >= 'A' && b <= 'Z') || (b >= '0' && b <= '9') || b == '_' || b == '$' || b == 8 || b >= 0x80 // bytes of non-ASCII identifier characters (labels keep their Go spelling)
 		if !must {
 			continue
 		}
